@@ -67,6 +67,10 @@ CLAIMS = {
    text="Lean 4 theorems: for any number of instances and any interleaving of their operations each instance ends in the state it reaches alone (induction over the schedule); the structural scan regenerated from the source shows no static mut / thread_local / interior mutability / atomics / locks / unsafe / hash-map iteration and exactly three lazy statics whose constant initialisers equal the model's masks. Replicated instances on 4-8 threads with rotated interleavings are compared with the model's single sequential answer.",
    note="PARTIAL by nature: thread scheduling, allocator and lazy-static initialisation races are runtime behaviour the model cannot exhibit. Axioms: propext, Quot.sound.",
    design="DESIGN.md §4 C17", technique="Lean 4 proof (interleaving independence) + regenerated structural scan + multi-thread schedule correspondence"),
+ "C06": dict(
+   text="Lean 4 theorems: an n-bit field written MSB-first is read back exactly (all widths, all values); a start code at the current position is recognised at any alignment; for every Sorenson Spark header (all versions, temporal references, the seven size codes incl. 8/16-bit custom sizes and the reserved code, picture types, deblocking flag, quantizers, any list of extra-information bytes) parsing the encoded header yields exactly the specified record and consumes exactly the header's bits, whatever follows. The standard H.263 header parser (PTYPE, PLUSPTYPE/OPPTYPE/MPPTYPE with inheritance, CPFMT/EPAR, CPCFC/ETR, UUI, SSS, ELNUM/RLNUM, RPSMF, TRPI/TRP, BCI, CPM/PSBI, PB fields, PEI) is modelled in full and compared field for field with the real parser and with the specification's expected header on exhaustive-per-field header descriptions, incl. every wrong fixed marker.",
+   note="PARTIAL: the round-trip theorem is proved for Sorenson headers; for standard headers the same statement is carried by the three-way correspondence (implementation = model = specification) only. The clause `a decoded picture reports the header it was decoded from` is covered by the P-line digests (tr, type, quantizer, options, size). Baseline headers are exercised without the scalability option; UFEP=000 inheritance uses synthesised previous headers (the parser demands RPRP after any header that carries a format). Axioms: propext, Classical.choice, Quot.sound.",
+   design="DESIGN.md §4 C06", technique="Lean 4 proof (encoder/parser round trip by symbolic evaluation) + exhaustive-per-field three-way correspondence"),
 }
 
 PENDING = {}
